@@ -18,6 +18,9 @@ PID = 'C16'
 def run(tier, seed, replay=None):
     t0_ = time.time()
     V = C.Verdict(PID, tier, seed)
+    # curvature, torsion and normals are quotients of differences of derivatives: on an object whose extent is 1e-6 of its
+    # distance from the origin double precision leaves too few digits to compare against exact values
+    O.OFFSET_PROB = 0.0
     l0 = C.l0_check(PID, thorough=(tier == 'thorough'))
     build_pyx.load_splipy()
     import numpy as np
